@@ -209,6 +209,10 @@ PROPS = {
                 "code's package variables; the driver evaluates the window-parametrised model, spork_authority_window): Create and "
                 "Activate calls by that key before, inside and after the window, two thirds of them acknowledging an older momentum "
                 "(one inside the window when the frontier is past it), activation of the scenario's sporks by that key when well inside; "
+                "at the end of every scenario each enforced spork in turn is taken out of the binary's implemented list and the "
+                "unimplemented-spork report is evaluated on the store of every height from two below its enforcement height to the "
+                "frontier (an older binary on this ledger); every fifth scenario re-executes the harness as a child that opens, with a "
+                "binary that lacks the spork, a ledger 0/1/3/7 momentums past its enforcement height: chain.Init must terminate; "
                 "distinct = distinct lines",
         "partial": "gating is exact only when sporks are enforced in the order accelerator, bridge&liquidity, htlc (known "
                    "finding F17); the case 'activating receive confirmed later than the enforcement height' is excluded by "
